@@ -67,12 +67,25 @@ def prefix_check(ctx):
     outs = [json.loads(l) for l in open(fout)]
     if len(outs) != len(queries):
         raise core.MachineryError("prefix export size mismatch")
-    cache_modes = [False, True]
-    for use_cache in cache_modes:
-        if use_cache:
-            signac.Project(root).update_cache()
-        for qs, o in zip(queries, outs):
-            fresh = signac.Project(root)
+    # the same queries under every cache situation: no cache file, exact cache file, STALE cache file (written when only one
+    # job of every colliding pair existed), and a session that has already opened one colliding job by its full id
+    stale_root = ctx.mkdtemp("prefix-stale")
+    ps = signac.init_project(stale_root)
+    for sp, jid in chosen[0::2]:
+        ps.open_job(sp).init()
+    ps.update_cache()
+    for sp, jid in chosen[1::2]:
+        signac.Project(stale_root).open_job(sp).init()
+    modes = [("no-cache", root, None), ("exact-cache", root, "update"), ("stale-cache", stale_root, None), ("warm-session", root, "warm")]
+    for mode, r_, prep in modes:
+        if prep == "update":
+            signac.Project(r_).update_cache()
+        for qi, (qs, o) in enumerate(zip(queries, outs)):
+            if mode in ("stale-cache", "warm-session") and ctx.quick and qi % 3:
+                continue
+            fresh = signac.Project(r_)
+            if prep == "warm":
+                fresh.open_job(id=ids[qi % len(ids)]).statepoint()      # the session cache now knows exactly one job
             try:
                 got = ("ok", fresh.open_job(id=qs).id)
             except KeyError as e:
@@ -82,11 +95,11 @@ def prefix_check(ctx):
             except Exception as e:  # noqa
                 got = (type(e).__name__, None)
             exp = (o["r"]["res"], "".join("%x" % d for d in o["r"]["id"]) if o["r"]["res"] == "ok" else None)
-            ctx.count(("prefix", len(qs), exp[0], use_cache), traces=1)
+            ctx.count(("prefix", len(qs), exp[0], mode), traces=1)
             if got != exp:
                 ctx.violation("prefix-resolution:%s-expected-%s" % (got[0], exp[0]),
-                              "open_job(id=%r) in a fresh session gives %s, the specification says %s (ids %s)" % (qs, got, exp, [j[:8] for j in ids]),
-                              {"kind": "prefix", "ids_sps": [sp for sp, _ in chosen], "query": qs, "expected": exp, "cache": use_cache})
+                              "open_job(id=%r) (%s) gives %s, the specification says %s (ids %s)" % (qs, mode, got, exp, [j[:8] for j in ids]),
+                              {"kind": "prefix", "ids_sps": [sp for sp, _ in chosen], "query": qs, "expected": exp, "mode": mode})
             elif got[0] == "ok":
                 sp = fresh.open_job(id=qs).statepoint()
                 if core.my_id(sp) != got[1]:
